@@ -114,6 +114,10 @@ TReenc ==
                 ok == Rec.res = "ok"
                 c == IF ok THEN ReencCause(o) ELSE ""
             IN /\ Reencode(Rec.res, o) /\ UNCHANGED hist
+               \* which case of the property this re-encoding falls under (vacuity evidence for the harness)
+               /\ PrintT(ToJson([cls |-> [st |-> st, status |-> P.status, canon |-> CanonicalZ(d),
+                                          rest |-> (P.status = "ok" /\ P.rest # <<>>),
+                                          partial |-> (P.status = "ok" /\ Len(P.blocks) < Len(T.blocks))]]))
                /\ CASE st = "raw" -> Chk("Reenc.unparsed-not-verbatim", ok /\ o = d)
                     [] st = "failed" -> Chk("Reenc.after-failed-parse", ok /\ o = d)
                     [] st = "parsed" ->
